@@ -42,11 +42,18 @@ def make_jobs(rng, tier, n_gen=10, n_bench=3, n_traj=5):
             job["seed_type"] = "np.int64"     # a NumPy integer as the seed
         jobs.append(job)
         jid += 1
-    for _ in range(n_bench):
-        jobs.append({"id": jid, "kind": "genbench",
-                     "name": rng.choice(configs.GEN_BENCH),
+    for i in range(n_bench):
+        name = rng.choice(configs.GEN_BENCH)
+        jobs.append({"id": jid, "kind": "genbench", "name": name,
                      "seed": rng.randint(0, 10 ** 5)})
         jid += 1
+        if i == 0:
+            # the same benchmark created WITHOUT a seed after the global
+            # generator was seeded: must not depend on what ran before
+            jobs.append({"id": jid, "kind": "genbench_unseeded",
+                         "name": name,
+                         "np_seed": rng.randint(0, 2 ** 31 - 1)})
+            jid += 1
     for _ in range(n_traj):
         spec = configs.draw_spec(rng, {"benchmark": 0.4, "generated": 0.3,
                                        "yaml": 0.3})
@@ -57,7 +64,8 @@ def make_jobs(rng, tier, n_gen=10, n_bench=3, n_traj=5):
                                "flat_obs": mt[2]},
                      "np_seed": rng.randint(0, 2 ** 31 - 1),
                      "plan_seed": rng.randint(0, 2 ** 31 - 1),
-                     "steps": rng.choice([60, 150, 300])})
+                     "steps": rng.choice([60, 150, 300]),
+                     "reset_seed": rng.choice([None, rng.randint(0, 10 ** 6)])})
         jid += 1
     return jobs
 
@@ -97,8 +105,8 @@ def compare(jobs, results, hashseeds):
             if len(seen) == 1:
                 # the same exception everywhere: not a reproducibility issue
                 continue
-            clause = "C14.gen" if job["kind"] in ("gen", "genbench") \
-                else "C14.traj"
+            clause = "C14.gen" if job["kind"] in (
+                "gen", "genbench", "genbench_unseeded") else "C14.traj"
             groups = [{"digest": d, "runs(PYTHONHASHSEED,repetition)": v}
                       for d, v in sorted(seen.items())]
             raise Violation(
@@ -122,7 +130,7 @@ def procs_execute(trace, tier, res):
         counters.hit("fault.process_boundary")
     counters.hit("jobs.gen", sum(1 for j in jobs if j["kind"] == "gen"))
     counters.hit("jobs.genbench",
-                 sum(1 for j in jobs if j["kind"] == "genbench"))
+                 sum(1 for j in jobs if j["kind"].startswith("genbench")))
     counters.hit("jobs.traj", sum(1 for j in jobs if j["kind"] == "traj"))
     try:
         compare(jobs, results, hashseeds)
